@@ -1,31 +1,50 @@
 #!/bin/bash
-# ./run.sh <property id> [--tier quick|thorough]     (cwd = /verif)
+# ./run.sh <property id> [--tier quick|thorough] [--replay <file>]     (cwd = /verif)
 cd /verif
 . ./env.sh
 ID=$1; shift
 TIER=${VERIF_TIER:-quick}; EXTRA=()
 while [ $# -gt 0 ]; do case "$1" in --tier) TIER=$2; shift 2;; --tier=*) TIER=${1#--tier=}; shift;; *) EXTRA+=("$1"); shift;; esac; done
 export VERIF_TIER=$TIER
+
+# run_seq <dir name (any case)> [args]: builds seq/<dir> against $VERIF_REPO and runs it
+run_seq() {
+  local lid=$(echo $1 | tr A-Z a-z); shift
+  [ -d /verif/seq/$lid ] || { echo "no check $lid" >&2; return 2; }
+  local B=${VERIF_CACHE:-/var/tmp/verif-cache}/seq; mkdir -p $B
+  local MF=""
+  if [ "$VERIF_REPO" != /repo ]; then
+    sed "s#=> /repo#=> $VERIF_REPO#" /verif/seq/go.mod > $B/alt.$$.mod; cp /verif/seq/go.sum $B/alt.$$.sum; MF="-modfile=$B/alt.$$.mod"
+  fi
+  if ! ( cd /verif/seq && go build $MF -o $B/seq-$lid.$$ ./$lid ); then
+    rm -f $B/alt.$$.*
+    echo "INCONCLUSIVE: build of the check against $VERIF_REPO failed" >&2
+    return 2
+  fi
+  rm -f $B/alt.$$.*
+  export VERIF_TREE_HASH=$(/verif/scripts/treehash.sh)
+  ( cd /verif; $B/seq-$lid.$$ --tier $TIER "$@" ); local rc=$?
+  rm -f $B/seq-$lid.$$
+  return $rc
+}
+
 case "$ID" in
   C01|C03|C04|C05|C06|C08|C20)
     B=$(scripts/e1bin.sh) || exit 2
     export VERIF_E1NATIVE=$B/e1native VERIF_REWRITES=$B/rewrites.json VERIF_TREE_HASH=$(basename $B)
-    if [ "${EXTRA[0]}" = "--replay" ]; then exec $B/e1 replay "${EXTRA[1]}"; fi
+    lid=$(echo $ID | tr A-Z a-z)
+    if [ "${EXTRA[0]}" = "--replay" ]; then
+      if grep -q '"engine": "E1"' "${EXTRA[1]}"; then exec $B/e1 replay "${EXTRA[1]}"; fi
+      VERIF_PART=e2 run_seq ${lid}e2 "${EXTRA[@]}"; exit $?
+    fi
+    # a property may have a bounded-exhaustive content part (engine E2) next to its E1 part;
+    # it writes evidence/parts/<ID>.e2.json, which the E1 run merges into the evidence file
+    rm -f evidence/parts/$ID.e2.json
+    if [ -d seq/${lid}e2 ]; then
+      VERIF_PART=e2 run_seq ${lid}e2; rc=$?
+      [ $rc -le 1 ] || exit $rc
+    fi
     exec $B/e1 run $ID --tier $TIER ;;
   *)
-    lid=$(echo $ID | tr A-Z a-z)
-    [ -d seq/$lid ] || { echo "no check for $ID" >&2; exit 2; }
-    B=${VERIF_CACHE:-/var/tmp/verif-cache}/seq; mkdir -p $B
-    cd seq
-    MF=""
-    if [ "$VERIF_REPO" != /repo ]; then
-      sed "s#=> /repo#=> $VERIF_REPO#" go.mod > $B/alt.$$.mod; cp go.sum $B/alt.$$.sum; MF="-modfile=$B/alt.$$.mod"
-    fi
-    if ! go build $MF -o $B/seq-$lid.$$ ./$lid; then rm -f $B/alt.$$.*; echo "INCONCLUSIVE: build of the check against $VERIF_REPO failed" >&2; exit 2; fi
-    rm -f $B/alt.$$.*
-    cd /verif
-    export VERIF_TREE_HASH=$(scripts/treehash.sh)
-    $B/seq-$lid.$$ --tier $TIER "${EXTRA[@]}"; rc=$?
-    rm -f $B/seq-$lid.$$
-    exit $rc ;;
+    run_seq $ID "${EXTRA[@]}"; exit $? ;;
 esac
